@@ -37,6 +37,14 @@ def list_strategy():
     return st.one_of(qgen.st_case_select(join_p=0, except_p=1, distinct=True, top=True, order=True), c01.strategy(), c02.strategy(), c03.st_case(), c04.strategy(), c05.strategy(), c05.strategy(), c14.st_poison(), c14.st_mistake())
 
 
+def with_modifier(text):
+    """Now and then the query carries a WITH (...) modifier (a function of the text, so that replay is exact)."""
+    k = len(text) % 9
+    if k < 3 and '#' not in text and '//' not in text:
+        return text.rstrip().rstrip(';') + [' WITH (header)', ' with (noheader)', ' WITH (headers)'][k]
+    return text
+
+
 def check_lists(case, stats=None):
     if 'q' in case:
         text = qgen.render(case['q'])
@@ -46,6 +54,7 @@ def check_lists(case, stats=None):
         text = case['query']
         a_names, b_names = case.get('a_names'), case.get('b_names')
         is_update = text.lower().startswith('update')
+    text = with_modifier(text)
     A0, B0 = case['A'], case.get('B')
     A, B = copy.deepcopy(A0), copy.deepcopy(B0)
     rowsA = list(A)
@@ -57,7 +66,7 @@ def check_lists(case, stats=None):
         r = engine.run_query_objects(text, A, B, a_names, b_names)
     if stats is not None:
         changed = is_update and r['error'] is None and r['out'] != A0
-        cl = ['lists', 'lists-update' if is_update else 'lists-select']
+        cl = ['lists', 'lists-update' if is_update else 'lists-select'] + (['lists-with-modifier'] if text.lower().rstrip().endswith(')') and ' with (' in text.lower() else [])
         if r['error'] is not None:
             cl.append('lists-failing-' + r['error']['cls'])
         stats.case(case, bool(changed or r['error'] is not None), cl, sample={'query': text, 'A': A0, 'B': B0, 'error': r['error']})
@@ -87,7 +96,7 @@ def check_js(case, drv, stats=None):
     q = case['q']
     if not qgen.renderable(q, 'js'):
         return
-    tjs = qgen.render(q, 'js')
+    tjs = with_modifier(qgen.render(q, 'js'))
     r = drv.query_table(tjs, copy.deepcopy(case['A']), copy.deepcopy(case.get('B')), case.get('a_names'), case.get('b_names'))
     if stats is not None:
         upd = q['type'] == 'update'
@@ -133,7 +142,7 @@ def check_pandas(case, stats=None):
     import pandas
     if not rectangular(case):
         return
-    text = qgen.render(case['q']) if 'q' in case else case['query']
+    text = with_modifier(qgen.render(case['q']) if 'q' in case else case['query'])
     a_names, b_names = case.get('a_names'), case.get('b_names')
     df = pandas.DataFrame(copy.deepcopy(case['A']), columns=a_names)
     dfb = pandas.DataFrame(copy.deepcopy(case['B']), columns=b_names) if case.get('B') is not None else None
